@@ -14,6 +14,7 @@ From Coquelicot Require Import Complex.
 From OV Require Import Base.Panic Base.Arith gen.Params Model.Roots Proofs.RootsRound.
 Import ListNotations.
 Local Open Scope R_scope.
+Import RRN.
 
 Definition cval (a b c d x : C) : C := (a * x * x * x + b * x * x + c * x + d)%C.
 Definition csize (a b c d x : C) : R :=
@@ -37,7 +38,10 @@ Proof.
 Qed.
 
 (* ---------------------------------------------------------------- constants *)
-Notation c3 := (C1 + C1 + C1)%C.
+Module RCN.
+Notation c3 := (RtoC 1 + RtoC 1 + RtoC 1)%C.
+End RCN.
+Import RCN.
 Lemma INR_27 : INR 27 = 27. Proof. rewrite INR_IZR_INZ. reflexivity. Qed.
 Lemma INR_9 : INR 9 = 9. Proof. rewrite INR_IZR_INZ. reflexivity. Qed.
 Lemma R2C_2 : RtoC (INR 2) = (C1 + C1)%C. Proof. cbn [INR]. now rewrite RtoC_plus. Qed.
